@@ -9,15 +9,25 @@ SPEC = dict(
     n=dict(quick=540, thorough=27000),
     modes=["c37", "c37multi", "c37deg"],
     rtol=1e-9, atol=1e-12,
-    rule="mode c37 cycles HuntCrossleyForce (generic / no penetration), SmoothSphereHalfSpaceForce, ExponentialSpringForce normal part, "
-         "Hertz contacts of CompliantContactSubsystem (generic / no penetration), ElasticFoundationForce mesh scenes; 1-4 spheres, "
-         "half space or sphere-sphere, approaching / slow / sliding / fast separating, random materials; c37multi = 2-4 balls on a "
-         "half space with fast-separating ones (finding F6); c37deg = smooth model with zero dissipation / fast separation; "
-         "distinct = distinct input records",
-    partial="Hertz elliptical, brick/half-space and elastic-foundation *generators* of CompliantContactSubsystem are not modelled "
-            "(only HertzCircular); ExponentialSpringForce: normal force modelled, friction (anchor/sliding states) only through the "
-            "implementation-side predicates; the contact geometry (location, normal, depth, nearest points) is taken from the "
-            "implementation (C34-C36)",
+    rule="mode c37 cycles HuntCrossleyForce (generic 1-4 spheres / guaranteed no penetration), SmoothSphereHalfSpaceForce, "
+         "ExponentialSpringForce normal part, Hertz contacts of CompliantContactSubsystem (generic / no penetration), "
+         "ElasticFoundationForce mesh scenes (mesh/half space, mesh/sphere, mesh/mesh with both surfaces carrying springs), "
+         "CompliantContactSubsystem mesh/half-space, brick/half-space, ellipsoid/half-space (HertzElliptical), mesh/sphere scenes "
+         "(predicates only; one in four with a guaranteed gap), ExponentialSpringForce with a displaced friction anchor followed by "
+         "the auto-update of anchor and sliding state (predicates only); approaching / slow / sliding / fast separating, random "
+         "materials; c37multi = 2-4 balls on a half space with fast-separating ones (finding F6, fixed in /repo 61cb6d63); "
+         "c37deg = smooth model with zero dissipation / fast separation; distinct = distinct input records",
+    partial="(i) proved about the executed model and compared with the implementation: HuntCrossleyForce (per contact and loop), "
+            "HertzCircular path of CompliantContactSubsystem, ElasticFoundationForce per spring (incl. mesh-mesh), "
+            "SmoothSphereHalfSpaceForce, ExponentialSpringForce normal force; magnitudes are tied to the executed definitions "
+            "(hc_fn_eq_doc, hertz_fNormal_eq_doc, ef_f_eq_doc, exp_law_eq_doc; smooth_law_eq_doc is a restatement of the same "
+            "expression tree - the header formula IS the code). (ii) predicates only: HertzElliptical, BrickHalfSpacePenalty and the "
+            "ElasticFoundation generator of CompliantContactSubsystem (non-attraction w.r.t. the half-space normal, no force without "
+            "penetration, power loss >= 0, PE >= 0; elliptical additionally friction bound/direction), ExponentialSpring friction "
+            "(<= mu*fz, in plane, = elastic + damping, damping part opposes slip, elastic part opposes the anchor displacement, "
+            "mu in [muk, mus], before and after the auto-update; 'opposes slip' is claimed for the damping part only). "
+            "(iii) not covered: the settle dynamics of the Sliding state over time, contact geometry (taken from the implementation, "
+            "C34-C36). Known finding: the smooth model is attractive for v < -2/(3c) (smooth_normal_sign_model)",
     assumptions=["libm sqrt/tanh/pow/exp are trusted (function parameters of the model: SqrtSpec, TanhSpec, pow >= 0)",
                  "friction theorems assume combined coefficients 0 <= ud <= us, 0 <= uv (not validated by HuntCrossleyForce::setBodyParameters)"],
 )
